@@ -26,6 +26,7 @@ RULE = ('Same generated merges as C11 (1-4 probes, channel counts 2-7 and templa
         'template counts, or >= 2 probes with unsigned index tables.')
 RULE += ' Added classes (shared workload): Fortran-ordered templates.npy / matrices in any probe incl. the first; NaN / inf samples in the last template of a probe (must not leak into other blocks); fractional sampling rates; folder names as in C11.'
 RULE += ' Round 8 (shared workload): the first probe re-sorted (other template / channel counts) between two merges of one Merger; a signal-free last template of the last probe (uncurated merges only).'
+RULE += ' Round 10 (shared workload, plus): a 260-probe merge.'
 EXHAUSTIVE = {'quick': False, 'thorough': False}
 FLOORS = {'quick': {'evaluations': 950, 'distinct_nontrivial': 200},
           'thorough': {'evaluations': 15000, 'distinct_nontrivial': 3000}}
